@@ -1,11 +1,129 @@
-(* Property C12 — theorems only.  Model: Model/C12_GPPrint.v (deap/gp.py). *)
-From Coq Require Import List ZArith Bool String.
+(* Property C12 — theorems only.  Model: Model/C12_GPPrint.v (deap/gp.py); proofs: Proofs/C12_GPPrint.v.
+
+   Reading guide.  t : list node is a PrimitiveTree (prefix order); parse t = Some tr says t is well formed
+   (exactly one complete tree tr).  Hypotheses used below (all defined in Proofs/C12_GPPrint.v):
+     all_nodes (node_ok ps) tr      names are Python identifiers, constants print as a separator-free atom
+                                    that evaluates back to the constant (DESIGN Appendix B 8)
+     all_nodes (resolvable sub ps)  the printed token of every node leads pset.mapping / eval back to it
+     typed sub tr                   every argument is acceptable where it stands (issubclass)
+     pset_ok ps                     Terminal.value of argument j = pset.arguments[j]; distinct identifiers
+     all_nodes (name_fresh ..) tr   no primitive / named terminal is shadowed by an argument name
+   TRUSTED, not proved: CPython's parser and evaluator agree with parse_expr / eval_expr on the printed
+   call-expression fragment (checked on every run by the differential harness). *)
+From Coq Require Import List ZArith Bool String Lia.
 From DV Require Import Base.C12_Str Model.C12_GPPrint Proofs.C12_GPPrint.
 Import ListNotations.
 Local Open Scope string_scope.
 
 (* PrimitiveTree.__str__ (the stack machine) prints every well-formed prefix list as the recursive
-   name(a1, ..., an) form of the tree it encodes: every argument of every arity in its position *)
+   name(a1, ..., an) form of the tree it encodes: every argument of every arity in its position;
+   arity-0 primitives print name() *)
 Theorem C12_str_is_pp : forall ps t tr, parse t = Some tr -> str_tree ps t = pp ps tr.
 Proof. exact str_is_pp. Qed.
 Print Assumptions C12_str_is_pp.
+
+(* the recursive-descent reading of prefix lists used to state the theorems is the inverse of flatten *)
+Theorem C12_parse_flatten : forall tr, wf_tree tr -> parse (flatten tr) = Some tr.
+Proof. exact parse_flatten. Qed.
+Print Assumptions C12_parse_flatten.
+
+Theorem C12_parse_sound : forall t tr, parse t = Some tr -> t = flatten tr /\ wf_tree tr.
+Proof. exact parse_sound. Qed.
+Print Assumptions C12_parse_sound.
+
+(* the tokens from_string obtains from the printed form are the nodes' tokens, one per node, in order *)
+Theorem C12_tokenize_printed : forall ps t tr,
+  parse t = Some tr -> all_nodes (node_ok ps) tr ->
+  tokenize (str_tree ps t) = map (node_tok ps) t.
+Proof. exact tokenize_str. Qed.
+Print Assumptions C12_tokenize_printed.
+
+(* from_string(str(t), pset) succeeds and yields a tree that prints identically, has the same node count and
+   arities, denotes the same function and compiles to the same code *)
+Theorem C12_read_print : forall sub ps t tr,
+  (forall a, sub a a = true) -> (forall a b c, sub a b = true -> sub b c = true -> sub a c = true) ->
+  parse t = Some tr -> all_nodes (node_ok ps) tr -> all_nodes (resolvable sub ps) tr -> typed sub tr ->
+  exists t',
+    read sub (ps_mapping ps) (str_tree ps t) = Some t' /\
+    str_tree ps t' = str_tree ps t /\
+    List.length t' = List.length t /\
+    map node_arity t' = map node_arity t /\
+    (forall V (cval : cst -> option V) ctx actuals,
+        eval_prefix cval ctx actuals t' = eval_prefix cval ctx actuals t) /\
+    (forall V (cval : cst -> option V) ctx, compile cval ps ctx t' = compile cval ps ctx t).
+Proof. exact read_print. Qed.
+Print Assumptions C12_read_print.
+
+(* the code string compile hands to eval is the call expression with the shape of the tree *)
+Theorem C12_code_is_expr : forall ps t tr,
+  parse t = Some tr -> all_nodes (node_ok ps) tr -> parse_expr (str_tree ps t) = Some (expr_of ps tr).
+Proof. exact code_is_expr. Qed.
+Print Assumptions C12_code_is_expr.
+
+(* gp.compile(t, pset)( *actuals ) — or the value itself for a set without arguments — is the direct
+   evaluation of the prefix tree: primitives are the context's functions, argument terminal j is the j-th
+   actual argument whatever it is currently called, named terminals are context values, constants and
+   ephemeral values are themselves.  A wrong number of arguments is an error on both sides. *)
+Theorem C12_compile_sem : forall V (cval : cst -> option V) ps ctx t tr actuals,
+  parse t = Some tr -> pset_ok ps -> all_nodes (node_ok ps) tr ->
+  all_nodes (name_fresh (ps_arguments ps)) tr ->
+  run_compiled cval (compile cval ps ctx t) actuals =
+  if Nat.eqb (List.length (ps_arguments ps)) (List.length actuals)
+  then eval_prefix cval ctx actuals t else None.
+Proof. intros V cval. exact (compile_sem_list cval). Qed.
+Print Assumptions C12_compile_sem.
+
+(* compileADF([main; adf1; ...], psets): the result is the main tree evaluated directly, a call of adf_i
+   evaluating adf_i's own prefix tree on the argument values, adf_i seeing exactly the ADFs after it.
+   zero_ok: an ADF (not the main tree) without argument is evaluated when compiled, so it must not raise. *)
+Theorem C12_compile_adf_sem : forall V (cval : cst -> option V) defs actuals,
+  Forall (def_ok) defs -> zero_ok cval (tl defs) ->
+  run_compiled cval (compile_adf cval defs) actuals = adf_sem cval defs actuals.
+Proof. intros V cval. exact (compile_adf_sem cval). Qed.
+Print Assumptions C12_compile_adf_sem.
+
+(* integer (also negative) and boolean constants always meet the printing hypothesis *)
+Theorem C12_int_bool_constants_ok : forall ps r,
+  (forall z, node_ok ps (NConst (CInt z) r)) /\ (forall b, node_ok ps (NConst (CBool b) r)).
+Proof. intros ps r. split; intro; [apply const_int_ok|apply const_bool_ok]. Qed.
+Print Assumptions C12_int_bool_constants_ok.
+
+(* non-vacuity: a set with a renamed argument, a named terminal, a negative constant, an arity-0 primitive;
+   the tree  add(neg(x), add(-3, k()))  meets every hypothesis above *)
+Definition ex_ps : pset :=
+  mkpset ["x"; "ARG1"] ["x"; "ARG1"]
+    [("add", NPrim "add" [0; 0] 0); ("neg", NPrim "neg" [0] 0); ("k", NPrim "k" [] 0);
+     ("x", NArg 0 0); ("ARG1", NArg 1 0); ("five", NSym "five" 0)].
+Definition ex_tree : tree :=
+  T (NPrim "add" [0; 0] 0)
+    [T (NPrim "neg" [0] 0) [T (NArg 0 0) []];
+     T (NPrim "add" [0; 0] 0) [T (NConst (CInt (-3)) 0) []; T (NPrim "k" [] 0) []]].
+
+Example C12_nonvacuous :
+  parse (flatten ex_tree) = Some ex_tree /\
+  all_nodes (node_ok ex_ps) ex_tree /\
+  all_nodes (resolvable (fun _ _ => true) ex_ps) ex_tree /\
+  typed (fun _ _ => true) ex_tree /\
+  pset_ok ex_ps /\
+  all_nodes (name_fresh (ps_arguments ex_ps)) ex_tree /\
+  str_tree ex_ps (flatten ex_tree) = "add(neg(x), add(-3, k()))".
+Proof.
+  split; [reflexivity|]. split.
+  { unfold all_nodes. cbn [ex_tree flatten flat_map app].
+    repeat (apply Forall_cons; [first [reflexivity | split; reflexivity]|]). apply Forall_nil. }
+  split.
+  { unfold all_nodes. cbn [ex_tree flatten flat_map app].
+    apply Forall_cons; [reflexivity|]. apply Forall_cons; [reflexivity|].
+    apply Forall_cons; [left; exists (NArg 0 0); repeat split|].
+    apply Forall_cons; [reflexivity|].
+    apply Forall_cons; [right; split; [reflexivity|]; exists (CInt (-3)), 0; repeat split|].
+    apply Forall_cons; [reflexivity|]. apply Forall_nil. }
+  split.
+  { unfold ex_tree.
+    repeat (first [apply Forall_nil
+                  | apply Forall_cons
+                  | apply ty_node; [intros ? ? ? E; inversion E; subst; repeat constructor|]]). }
+  split; [repeat split|]. split; [|reflexivity].
+  unfold all_nodes. cbn [ex_tree flatten flat_map app].
+  repeat (apply Forall_cons; [cbn; first [lia | intuition discriminate | exact I]|]). apply Forall_nil.
+Qed.
